@@ -169,6 +169,7 @@ func c18Selects(thorough bool) []string {
 		}
 	}
 	out = append(out, "SELECT * FROM sys_pages", "SELECT * FROM sys_schema ORDER BY field_length", "SELECT count(*), table_name FROM sys_schema GROUP BY table_name",
+		"SELECT 1", "SELECT 1, 'x', true", "SELECT count(*)", "SELECT avg(a)", "SELECT a", "SELECT * ", "SELECT 1 LIMIT 1", "SELECT 1 ORDER BY a", "SELECT 1 WHERE 1 = 1", "SELECT 1 GROUP BY a",
 		"SHOW DATABASE", "SHOW databases", "SELECT", "SELECT FROM t", "SELECT * FROM", "SELECT * FROM t WHERE", "SELECT * FROM t ORDER BY", "SELECT * FROM t GROUP BY")
 	return out
 }
@@ -271,6 +272,11 @@ func runC18(env *lib.Env, rep *lib.Report) {
 		judge(rf.Trace[0], rf.Trace[1], e)
 		return
 	}
+	// a fatal runtime error (unlock of an unlocked mutex, stack overflow) cannot be recovered: the statement in
+	// progress is kept in a memory-mapped journal the driver reads when the worker dies
+	var prog lib.Progress
+	prog.MapJournal(env.Journal)
+	defer prog.Done()
 	idx := 0
 	for _, state := range states {
 		// read-only statements share one database per (state, shard)
@@ -283,6 +289,7 @@ func runC18(env *lib.Env, rep *lib.Report) {
 			if idx%env.NShards != env.Shard {
 				continue
 			}
+			prog.Set("session state "+state, q)
 			storage.VerifSetFuel(worldFuel)
 			e := guard(func() error { return w.sess.ExecQuery(q) })
 			storage.VerifSetFuel(-1)
@@ -302,6 +309,7 @@ func runC18(env *lib.Env, rep *lib.Report) {
 			if err != nil {
 				panic(lib.HarnessError{Msg: "C18 setup: " + err.Error()})
 			}
+			prog.Set("session state "+state+" (fresh database)", q)
 			storage.VerifSetFuel(worldFuel)
 			e := guard(func() error { return w.sess.ExecQuery(q) })
 			storage.VerifSetFuel(-1)
